@@ -36,6 +36,7 @@ Fixpoint OK (stk : list gc) (up : list kent) (live : list lentry) (bk : books) (
           /\ (forall id, base <= id -> id < N.of_nat (length (fst bk)) -> In id (snd bk) \/ In id (map fst up))
           /\ NoDup (map fst up)
           /\ (forall id, In id (snd bk) -> id < N.of_nat (length (fst bk)))
+          /\ (forall e, In e live -> le_own e = 0 -> le_id e < base /\ ~ In (le_id e) (snd bk))
   | c :: rest =>
       map n_size (s_cache (g_st c)) = class_sizes
       /\ sizes_ok (fst bk) (is_nil rest) (g_st c)
@@ -235,12 +236,15 @@ Qed.
 (* only the buffers in use on the account of the objects of the stack matter *)
 Lemma OK_live_ext : forall stk up live live' bk base,
   (forall c, In c stk -> Permutation (lvk live (g_ser c)) (lvk live' (g_ser c))) ->
+  (forall e, In e live' -> le_own e = 0 -> In e live) ->
   OK stk up live bk base -> OK stk up live' bk base.
 Proof.
-  induction stk as [|c rest IH]; intros up live live' bk base Hp H; [exact H|].
+  induction stk as [|c rest IH]; intros up live live' bk base Hp Hd H.
+  { simpl in *. destruct H as [H1 [H2 [H3 [H4 H5]]]]. split; [exact H1|]. split; [exact H2|]. split; [exact H3|]. split; [exact H4|].
+    intros e He Ho. apply H5; [apply Hd; assumption | exact Ho]. }
   simpl in *. destruct H as [H1 [H2 [H3 H4]]]. split; [exact H1|]. split; [exact H2|]. split.
   - eapply perm_trans; [exact H3|]. apply Permutation_app_head. apply Hp. left. reflexivity.
-  - eapply IH; [|exact H4]. intros c' Hc. apply Hp. right. exact Hc.
+  - eapply IH; [|exact Hd|exact H4]. intros c' Hc. apply Hp. right. exact Hc.
 Qed.
 
 (* ---------------------------------------------------------------- one node replaced *)
